@@ -337,6 +337,7 @@ typedef struct vthread {
   void* arg;
   int prio;
   int wait_for;          /* thread index this thread joins, or -1 */
+  long last_chosen;      /* g_points when this thread last got the turn */
   uint64_t lastpoll_epoch; /* idle thread already got its extra poll in this epoch */
   pthread_t tid;
 } vthread_t;
@@ -353,6 +354,7 @@ static long g_points, g_max_points = 400000;
 static int g_policy; /* 0 rand-sticky, 1 pct, 2 round-robin-ish */
 static int g_stick = 70;
 static int g_spin_limit = 80;
+static int g_fair_run = 3000;
 static FILE* g_dummy;
 /* guide: run the named thread until one of its steps changes tracked memory */
 #define GUIDE_ENV (-1000)
@@ -492,7 +494,7 @@ static int pick(vthread_t* cur) {
     if (cur && cur->idx == last) run_len++;
     else run_len = 0;
     last = cur ? cur->idx : -1;
-    if (cur && run_len > 3000) { /* fairness: a polling loop must not monopolise the schedule */
+    if (cur && run_len > g_fair_run) { /* fairness: a polling loop must not monopolise the schedule */
       cur->prio = --demote;
       run_len = 0;
     }
@@ -501,6 +503,11 @@ static int pick(vthread_t* cur) {
     int best = el[0];
     for (int i = 1; i < n; i++)
       if (g_thr[el[i]].prio > g_thr[best].prio) best = el[i];
+    /* starvation freedom: an eligible thread that has not been chosen for a long time gets the
+       turn (two higher-priority threads that keep re-enabling each other must not lock it out) */
+    long age_limit = 2L * g_fair_run + 2000;
+    for (int i = 0; i < n; i++)
+      if (g_points - g_thr[el[i]].last_chosen > age_limit) best = el[i];
     return best;
   }
   if (cur && eligible(cur) && (int)rnd(100) < g_stick) return cur->idx;
@@ -528,6 +535,7 @@ static void sched(vthread_t* s) {
     record_pick(p);
     vthread_t* t = &g_thr[p];
     t->yielding = 0;
+    t->last_chosen = g_points;
     if (t == s) return;
     give_turn(t);
     wait_turn(s);
@@ -789,10 +797,21 @@ void vrt_init(void) {
   g_trace_path = getenv("VRT_TRACE");
   g_max_points = vrt_getenv_int("VRT_MAX_POINTS", 400000);
   g_spin_limit = (int)vrt_getenv_int("VRT_SPIN_LIMIT", 80);
+  /* one seed in ten models a long stall of the other kernel threads: a busy-waiting thread keeps
+     the CPU for thousands of iterations before the scheduler treats it as waiting (bounded
+     retry loops and give-up paths only show then) */
+  int long_stall = !getenv("VRT_SPIN_LIMIT") && (seed % 10) == 7;
+  if (long_stall) {
+    g_spin_limit = 30000;
+    g_fair_run = 60000;
+  }
+  g_fair_run = (int)vrt_getenv_int("VRT_FAIR_RUN", g_fair_run);
   g_env_pct = (int)vrt_getenv_int("VRT_ENV_PCT", 3);
   g_xstack = (int)vrt_getenv_int("VRT_XSTACK", 0);
   const char* pol = vrt_getenv("VRT_POLICY", "mix");
-  if (!strcmp(pol, "mix")) {
+  if (!strcmp(pol, "mix") && long_stall) {
+    g_policy = 1; /* priority scheduling: the spinner really keeps the CPU */
+  } else if (!strcmp(pol, "mix")) {
     /* derive policy + stickiness from the seed for variety */
     unsigned r = rnd(10);
     if (r < 3) {
